@@ -66,6 +66,11 @@ class _SerialPool:
     def map(self, fn, it):
         return [fn(a) for a in it]
 
+    def imap(self, fn, it, chunksize=1):
+        return iter([fn(a) for a in it])
+
+    imap_unordered = imap  # the stand-in is ordered; only the real pool can reorder (C15 compares both)
+
 
 _REAL_POOLS = {}
 
